@@ -14,7 +14,8 @@ QUICK_N = 2500; THOROUGH_N = 150000
 RULE = ("scripts = 1..6 tasks on 1..2 async modules, each task a list of sleep / sleep_until / timeout(d, sleep x | flip) / "
         "select!{sleep a, sleep b} (biased or not) / interval(period, Burst|Delay|Skip, busy delays between ticks) / "
         "pinned sleep polled+reset / pinned sleep polled+dropped / boxed sleep polled and handed to another task of the module, which "
-        "awaits it / log steps, tasks spawned at start-up or by a message at a scripted "
+        "awaits it / timeout or select! around a channel receive that is satisfied by a message event (a task spawned by a message that "
+        "sends at once), cancelling the module's earliest timer while its wake-up event is already scheduled / log steps, tasks spawned at start-up or by a message at a scripted "
         "instant; durations drawn from a small tie-rich set (0,1,5,10,15,20 ns, ms-scale around the 5 ms missed-tick threshold, "
         "far future), structured so that cancelled/dropped/reset timers precede live ones, deadlines coincide across tasks, "
         "messages arrive at wake-up instants; non-trivial = distinct script hitting >= 2 targeted mechanisms")
@@ -26,7 +27,9 @@ TRUSTED = ["tasks are scripts over the timer API (no channels between tasks: tas
 ASSUMPTIONS = ["fewer than 61 task polls per event (tokio's budget is C06's subject)",
                "generated scripts use every hand-over channel for one send and at most one receive (the order in which tokio runs "
                "timer-woken and freshly spawned tasks within one event is not modelled, so competing senders/receivers are avoided); "
-               "the monitor does not constrain a task after a receive on a channel with several senders or receivers",
+               "the monitor does not constrain a task after a receive on a channel with several senders or receivers; generated scripts "
+               "avoid a boxed Sleep arriving in the very instant of the deadline of the timeout/select that waits for it (the monitor "
+               "accepts both outcomes there)",
                "times stay below 2^62 ns; an unbiased select! between equal deadlines reports branch 2 (tokio picks by a seeded RNG)"]
 CLAIM = dict(
     text="Machine-checked (Coq 8.16, axiom-free) for the model of des/src/time/driver.rs + refs.rs activate/deactivate as the code is after "
@@ -112,6 +115,10 @@ def parse_steps(b):
             out.append(("hand", b[i + 1], b[i + 2])); i += 3
         elif t == 10 and left >= 1:
             out.append(("recv", b[i + 1])); i += 2
+        elif t == 11 and left >= 2:
+            out.append(("trecv", b[i + 1], b[i + 2])); i += 3
+        elif t == 12 and left >= 3:
+            out.append(("selrecv", b[i + 1] % 2 == 1, b[i + 2], b[i + 3])); i += 4
         else:
             break
     return out
@@ -128,6 +135,8 @@ def enc_step(s):
     if k == "drop": return [7, s[1]]
     if k == "hand": return [9, s[1], s[2]]
     if k == "recv": return [10, s[1]]
+    if k == "trecv": return [11, s[1], s[2]]
+    if k == "selrecv": return [12, 1 if s[1] else 0, s[2], s[3]]
     return [8]
 
 
@@ -173,6 +182,9 @@ def pretty_step(s):
     if k == "drop": return "drop(polled sleep(%s))" % fmt(s[1])
     if k == "hand": return "ch%d.send(polled boxed sleep(%s))" % (s[1], fmt(s[2]))
     if k == "recv": return "ch%d.recv().await.await" % s[1]
+    if k == "trecv": return "timeout(%s, ch%d.recv())" % (fmt(s[1]), s[2])
+    if k == "selrecv": return ("select_biased(ch%d.recv(), sleep(%s))" if s[1] else "select_biased(sleep(%s), ch%d.recv())") % (
+        (s[2], fmt(s[3])) if s[1] else (fmt(s[3]), s[2]))
     return "log"
 
 
@@ -194,7 +206,7 @@ def skip_next(timeout, now, period):
 
 def expect_task(t):
     """One task on its own (a receive is not followed)."""
-    recs, timers, now, _, _ = walk_task(t, None, None)
+    recs, timers, now, _, _, _ = walk_task(t, None, None)
     return recs, timers, now
 
 
@@ -208,9 +220,40 @@ def walk_task(t, sends, chans):
     now = t["start"]
     recs, timers = [], []
     status, sent = "done", {}
+    info = {"cancels": [], "ties": 0}   # timers cancelled by the arrival of a boxed Sleep; arrivals in the instant of the deadline
     for s in t["steps"]:
         k = s[0]
-        if k == "hand":
+        if k in ("trecv", "selrecv"):
+            ch, d = (s[2], s[1]) if k == "trecv" else (s[2], s[3])
+            rf = True if k == "trecv" else s[1]       # Timeout polls its value first
+            won, lost = ((now, 1), (now + d, 0)) if k == "trecv" else ((now, 0), (now + d, 1))
+            key = (t["mod"], ch)
+            ns, nr = (chans or {}).get(key, (2, 2))
+            if ns == 0:
+                timers.append((now, now + d, d > 0, now + d)); now += d; recs.append([lost])
+                continue
+            if ns != 1 or nr != 1:
+                status = "free"; break
+            if key not in sends:
+                status = "blocked"; break
+            ts = sends[key][0]
+            if ts < now:
+                if not rf and d == 0:
+                    recs.append([lost])
+                else:
+                    recs.append([won])
+            elif ts == now + d:
+                info["ties"] += 1
+                timers.append((now, now + d, d > 0, now + d)); now += d
+                recs.append([(now, lost[1]), (now, won[1])])
+            elif ts < now + d:
+                timers.append((now, now + d, True, ts))
+                if ts > now:
+                    info["cancels"].append((now + d, ts, key))
+                now = ts; recs.append([(now, won[1])])
+            else:
+                timers.append((now, now + d, d > 0, now + d)); now += d; recs.append([lost])
+        elif k == "hand":
             timers.append((now, now + s[2], s[2] > 0, now + s[2]))
             sent[(t["mod"], s[1])] = (now, now + s[2])
             recs.append([(now,)])
@@ -272,7 +315,7 @@ def walk_task(t, sends, chans):
             timers.append((now, now + s[1], s[1] > 0, now)); recs.append([(now,)])
         else:
             recs.append([(now,)])
-    return recs, timers, now, status, sent
+    return recs, timers, now, status, sent, info
 
 
 def expect_all(tasks):
@@ -280,9 +323,10 @@ def expect_all(tasks):
     chans = {}
     for t in tasks:
         for s in t["steps"]:
-            if s[0] in ("hand", "recv"):
-                a, b = chans.get((t["mod"], s[1]), (0, 0))
-                chans[(t["mod"], s[1])] = (a + 1, b) if s[0] == "hand" else (a, b + 1)
+            if s[0] in ("hand", "recv", "trecv", "selrecv"):
+                ch = s[1] if s[0] in ("hand", "recv") else s[2]
+                a, b = chans.get((t["mod"], ch), (0, 0))
+                chans[(t["mod"], ch)] = (a + 1, b) if s[0] == "hand" else (a, b + 1)
     sends = {}
     res = []
     for _ in range(len(tasks) + 2):
@@ -324,7 +368,7 @@ def monitor(script, out):
     exp = expect_all(tasks)
     all_done = all(e[3] == "done" for e in exp)
     for k, (t, (lg, fin)) in enumerate(zip(tasks, res)):
-        recs, _, fin_t, status, _ = exp[k]
+        recs, _, fin_t, status, _, _ = exp[k]
         if status == "done":
             last = max(last, fin_t)
         i = 0
@@ -373,7 +417,7 @@ def mechanisms(script, out):
         now = t["start"]
         for j, s in enumerate(t["steps"]):
             if s[0] == "recv" and (t["mod"], s[1]) in sends and exp[k][3] == "done":
-                _, _, arrive, _, _ = walk_task({"mod": t["mod"], "start": t["start"], "steps": t["steps"][:j]}, sends,
+                _, _, arrive, _, _, _ = walk_task({"mod": t["mod"], "start": t["start"], "steps": t["steps"][:j]}, sends,
                                                collections.defaultdict(lambda: (1, 1)))
                 ts, dl = sends[(t["mod"], s[1])]
                 tr = max(arrive, ts)
@@ -411,6 +455,23 @@ def mechanisms(script, out):
                     now += b
             else:
                 _, _, now = expect_task({"mod": t["mod"], "start": now, "steps": [s]})
+    # a message event cancels the timer the module's pending wake-up event was scheduled for
+    for k, t in enumerate(tasks):
+        for (D, ts, key) in exp[k][5]["cancels"]:
+            m.add("timer_cancelled_by_arrival")
+            snd = [x for x in tasks if x["mod"] == key[0] and any(q[0] == "hand" and q[1] == key[1] for q in x["steps"])]
+            if not (snd and snd[0]["start"] == ts and ts > 0):
+                continue
+            m.add("timer_cancelled_by_message_event")
+            si = tasks.index(snd[0])
+            # the boxed Sleep that arrives is dropped by the receiver at once: not a live timer either
+            others = [x for x in per_mod[t["mod"]] if x[3] and not (x[0] == k and x[2] == D)
+                      and not (x[0] == si and x[1] == ts and x[2] == sends[key][1])]
+            if any(x[1] <= ts < x[4] and x[2] <= D for x in others):
+                continue
+            m.add("earliest_timer_cancelled_by_message")
+            if any(x[1] <= D < x[4] and x[2] > D for x in others) and not any(x[2] == D and x[1] < D <= x[4] for x in others):
+                m.add("stale_wakeup_event_fires")
     for mod, tms in per_mod.items():
         live = [x for x in tms if x[3]]
         for a in live:
@@ -510,6 +571,32 @@ def gen_script(rng):
             i = rng.randrange(nt)
             tasks[i]["steps"].append(("recv", ch))
         ch += 1
+    # message-driven cancellation: a task waits in timeout(d, recv) / select{recv, sleep(d)}; a task spawned by a
+    # message at a scripted instant sends at once (= a message event whose handler sends on the channel); later
+    # timers of the receiver's module depend on the wake-up bookkeeping surviving the cancelled timer
+    if rng.random() < 0.28:
+        for attempt in range(4):
+            cand = [dict(t, steps=list(t["steps"])) for t in tasks]
+            j = rng.randrange(len(cand))
+            pos = rng.randint(0, len(cand[j]["steps"]))
+            d = rng.choice([10, 10, 15, 20, 25, 40])
+            st = ("trecv", d, 7) if rng.random() < 0.6 else ("selrecv", rng.random() < 0.7, 7, d)
+            cand[j]["steps"].insert(pos, st)
+            if rng.random() < 0.85:
+                tail = rng.choice([("sleep", d), ("sleep", 2 * d), ("until", 3 * d + cand[j]["start"]), ("timeout", 2 * d, 3 * d),
+                                   ("select", True, d + 5, 2 * d), ("reset", True, d, 2 * d)])
+                cand[j]["steps"].insert(pos + 1, tail)
+            _, _, arr, stt, _, _ = walk_task(dict(cand[j], steps=cand[j]["steps"][:pos]), {}, collections.defaultdict(lambda: (1, 1)))
+            if stt != "done":
+                continue
+            off = rng.choice([1, 2, 2, 5, 5, 7, 9, d - 1, d + 1, d + 5])
+            snd = {"mod": cand[j]["mod"], "start": max(1, arr + off),
+                   "steps": [("hand", 7, rng.choice([3, 5, 20, 50]))] + [gen_step(rng, arr + off) for _ in range(rng.choice([0, 0, 1, 2]))]}
+            cand.append(snd)
+            if any(e[5]["ties"] for e in expect_all(cand)):
+                continue        # an arrival in the very instant of the deadline: outcome depends on tokio's task order
+            tasks = cand
+            break
     return encode(mods, tasks)
 
 
@@ -530,7 +617,9 @@ def exhaustive():
     """(1) every script of two tasks on one module, both spawned at start-up, each of <= 3 steps over the 9-symbol alphabet
     EX_SMALL (durations 5/10/15), up to the order of the two tasks; (2) every script of two tasks on one module, the first of
     <= 3 steps spawned at start-up, the second of 1..2 steps spawned by a message at t=5, over the 13-symbol alphabet EX_ALPHABET;
-    (3) every hand-over script [<=1 step] send(sleep 5/10/15) [<=1 step] | [<=1 step] receive+await [<=1 step] over EX_SMALL"""
+    (3) every hand-over script [<=1 step] send(sleep 5/10/15) [<=1 step] | [<=1 step] receive+await [<=1 step] over EX_SMALL;
+    (4) every message-driven cancellation script [<=1 step] timeout(10, recv)|select{recv,sleep(10)} [<=1 step] with the sender
+    spawned by a message at 2/5/12 = send(sleep 5/20) [<=1 step], over EX_SMALL"""
     seqs = [s for n in range(0, 4) for s in itertools.product(EX_SMALL, repeat=n)]
     for i, a in enumerate(seqs):
         for b in seqs[i:]:
@@ -551,3 +640,16 @@ def exhaustive():
                         for sb in opt:
                             yield encode(1, [{"mod": 0, "start": 0, "steps": list(pa) + [("hand", 0, d)] + list(sa)},
                                              {"mod": 0, "start": st, "steps": list(pb) + [("recv", 0)] + list(sb)}])
+    # (4) message-driven cancellation: receiver = [<=1 step] timeout(10, recv) | select{recv, sleep(10)} [<=1 step],
+    # sender spawned by a message at 2 / 5 / 12 = send(sleep 5|20) [<=1 step]; arrivals in the instant of the deadline excluded
+    for pb in opt:
+        for rstep in (("trecv", 10, 0), ("selrecv", True, 0, 10), ("selrecv", False, 0, 10)):
+            for sb in opt:
+                for st in (2, 5, 12):
+                    for d in (5, 20):
+                        for sa in opt:
+                            tasks = [{"mod": 0, "start": 0, "steps": list(pb) + [rstep] + list(sb)},
+                                     {"mod": 0, "start": st, "steps": [("hand", 0, d)] + list(sa)}]
+                            if any(e[5]["ties"] for e in expect_all(tasks)):
+                                continue
+                            yield encode(1, tasks)
